@@ -214,6 +214,8 @@ class Interp:
                          else rbase())
         self.maps = {'R': self.root}        # map id -> MMap
         self.h = {}                         # handle id -> HState
+        self.deferred = None
+        self.closed = False
         self.snaps = {}                     # snap id -> (static, model)
         self.snap_of_root = set()
         self.loop = d.SimpleLoop()
@@ -340,9 +342,34 @@ class Interp:
             v = self.desper.WorldFromFileHandle.load(st.obj)
         else:
             v = self.make_value(st.vcode)
+            if st.vcode == 'weakobj':
+                # the program watches the resource die (a finalizer): at
+                # that instant the handle no longer claims to hold it
+                import weakref
+                f = weakref.finalize(v, self.on_value_death, hid)
+                f.atexit = False
         st.completed += 1
         st.last = _WeakBox(v) if st.vcode == 'weakobj' else v
         return v
+
+    def on_value_death(self, hid):
+        if self.closed:
+            return
+        st = self.h.get(hid)
+        if st is None:
+            return
+        self.probes['resource_finalizer_looked_at_its_handle'] += 1
+        try:
+            flag = st.obj.cached
+        except Exception as e:
+            flag = f'raised {type(e).__name__}'
+        self.trace.add('value_death', hid, repr(flag))
+        if flag is not False and self.deferred is None:
+            self.deferred = Violation(
+                'C12', 'cached_flag', f'the resource of h{hid} has just been '
+                f'let go (it is being finalised), h{hid}.cached reads '
+                f'{flag!r} at that instant')
+
 
     def nested_load(self, st):
         """A load that itself reaches another handle through the map."""
@@ -619,6 +646,9 @@ class Interp:
         self.trace.add('op', *[json.dumps(x, sort_keys=True)
                                if isinstance(x, dict) else x for x in op])
         r = getattr(self, 'op_' + op[0])(op)
+        if self.deferred is not None:
+            v, self.deferred = self.deferred, None
+            raise v
         if r == 'skip':
             self.stats['skipped'] += 1
             self.trace.add('skip')
@@ -1117,6 +1147,7 @@ def execute(scenario, prop, tolerate=frozenset()):
         violation = v.to_json()
         violation['op'] = idx
     finally:
+        it.closed = True
         if it.scratch is not None:
             import os
             import shutil
